@@ -61,13 +61,14 @@ class SpecFn:
     """A spec function: either a macro (lambda source, expanded at use, evaluated natively by
     eval of the same text) or an uninterpreted function with axioms and a native definition."""
 
-    def __init__(self, name, src=None, sig=None, axioms=(), native=None):
+    def __init__(self, name, src=None, sig=None, axioms=(), native=None, uf=False):
         self.name, self.src, self.sig, self.axioms, self.native = name, src, sig, list(axioms), native
+        self.uf = uf        # macro exposed as an uninterpreted function + definitional axiom (usable as trigger)
         self.tree = ast.parse(src, mode='eval').body if src else None
 
 
-def specfn(name, src=None, sig=None, axioms=(), native=None):
-    SPECFNS[name] = SpecFn(name, src, sig, axioms, native)
+def specfn(name, src=None, sig=None, axioms=(), native=None, uf=False):
+    SPECFNS[name] = SpecFn(name, src, sig, axioms, native, uf)
 
 
 class ClassSchema:
